@@ -15,6 +15,7 @@ type scenario struct {
 	Args    []cadence.Value
 	Signers []common.Address
 	Try     bool // has a tryUpdate block delimited by log("begin") / log("end")
+	Bulk    bool // many lazy ledger reads/writes: every one is failed in turn; the Coq model is compared on a sample
 }
 
 func str(s string) cadence.Value {
@@ -209,3 +210,87 @@ access(all) fun main(): [Int] {
 }`,
 	},
 }
+
+const bulkAcct = "let acct = getAuthAccount<auth(Storage) &Account>(0x4)\n"
+
+// large stored containers (multi-slab) and accounts with many paths, accessed in a later execution: the slabs are
+// read from the ledger lazily, in the middle of the operations
+var bulkScenarios = []scenario{
+	{Name: "bulk_dict_keys", Bulk: true, Src: `
+access(all) fun main(): Int {
+    ` + bulkAcct + `    let r = acct.storage.borrow<&{Int: String}>(from: /storage/bigDict)!
+    return r.keys.length
+}`},
+	{Name: "bulk_dict_values_lookup", Bulk: true, Src: `
+access(all) fun main(): Int {
+    ` + bulkAcct + `    let r = acct.storage.borrow<&{Int: String}>(from: /storage/bigDict)!
+    var n = r.values.length
+    r.forEachKey(fun (k: Int): Bool { n = n + 1; return true })
+    if r.containsKey(399) { n = n + 1 }
+    n = n + r[200]!.length + r.length
+    return n
+}`},
+	{Name: "bulk_array_ops", Bulk: true, Src: `
+access(all) fun main(): Int {
+    ` + bulkAcct + `    let r = acct.storage.borrow<&[String]>(from: /storage/bigArr)!
+    var n = 0
+    for x in r { n = n + x.length }
+    n = n + r.slice(from: 100, upTo: 250).length + r.concat(["z"]).length
+    if r.contains("nope") { n = n + 1 }
+    n = n + r.map(fun (s: String): Int { return s.length }).length
+    n = n + r.filter(view fun (s: String): Bool { return s.length > 5 }).length
+    n = n + (r.firstIndex(of: "nope") ?? 0) + r[250].length
+    return n
+}`},
+	{Name: "bulk_copy", Bulk: true, Src: `
+access(all) fun main(): Int {
+    ` + bulkAcct + `    return acct.storage.copy<{Int: String}>(from: /storage/bigDict)!.length
+        + acct.storage.copy<[String]>(from: /storage/bigArr)!.length
+}`},
+	{Name: "bulk_paths", Bulk: true, Src: `
+access(all) fun main(): Int {
+    ` + bulkAcct + `    var n = acct.storage.storagePaths.length + acct.storage.publicPaths.length
+    acct.storage.forEachStored(fun (p: StoragePath, t: Type): Bool { n = n + 1; return true })
+    acct.storage.forEachPublic(fun (p: PublicPath, t: Type): Bool { n = n + 1; return true })
+    return n
+}`},
+	{Name: "bulk_nested", Bulk: true, Src: `
+access(all) fun main(): Int {
+    ` + bulkAcct + `    let r = acct.storage.borrow<&{String: [Int]}>(from: /storage/nested)!
+    var n = 0
+    for k in r.keys { n = n + r[k]!.length }
+    return n
+}`},
+	{Name: "bulk_export", Bulk: true, Src: `
+access(all) fun main(): {String: [Int]} {
+    ` + bulkAcct + `    return acct.storage.copy<{String: [Int]}>(from: /storage/nested)!
+}`},
+	{Name: "bulk_mutate_tx", Tx: true, Bulk: true, Signers: []common.Address{addr4}, Src: `
+import C from 0x1
+transaction {
+    prepare(signer: auth(Storage) &Account) {
+        let d = signer.storage.borrow<auth(Mutate) &{Int: String}>(from: /storage/bigDict)!
+        d[1000] = "new"
+        d.remove(key: 3)
+        let a = signer.storage.borrow<auth(Mutate) &[String]>(from: /storage/bigArr)!
+        a.append("x")
+        a.remove(at: 0)
+        a.insert(at: 5, "y")
+        let rs = signer.storage.borrow<auth(Mutate) &{Int: C.R}>(from: /storage/resDict)!
+        let x <- rs.remove(key: 7)!
+        destroy x
+        rs[100] <-! C.makeR(v: 1)
+    }
+}`},
+	{Name: "bulk_load_save_tx", Tx: true, Bulk: true, Signers: []common.Address{addr4}, Src: `
+transaction {
+    prepare(signer: auth(Storage) &Account) {
+        let d = signer.storage.load<{Int: String}>(from: /storage/bigDict)!
+        signer.storage.save(d, to: /storage/bigDict2)
+        let a = signer.storage.load<[String]>(from: /storage/bigArr)!
+        signer.storage.save(a.concat(a), to: /storage/bigArr2)
+    }
+}`},
+}
+
+func init() { scenarios = append(scenarios, bulkScenarios...) }
